@@ -582,3 +582,15 @@ def float_to_int(a, to):
     lo = tlo if a.lo == -math.inf or math.isnan(a.lo) else max(tlo, min(thi, int(a.lo)))
     hi = thi if a.hi == math.inf or math.isnan(a.hi) else max(tlo, min(thi, int(a.hi)))
     return IntV(to, None, lo, hi, None, a.deps, None, ("ftoi", a.term))
+
+
+
+def bool_to_int(a, ty):
+    """`b as uN` / `uN::from(b)`: 0 or 1, bit 0 being the flag's own bit expression when it has one"""
+    from .domain import BoolV
+    if a.val is not None:
+        return IntV.const(ty, int(a.val))
+    if a.bit is not None and a.bit != TBIT:
+        w = INT_TYPES[ty][0]
+        return IntV(ty, (a.bit,) + (0,) * (w - 1), 0, 1, None, a.deps)
+    return IntV(ty, None, 0, 1, None, a.deps)
